@@ -204,7 +204,7 @@ func (d *mapDecoder) DecodePath(ctx *RuntimeContext, cursor, depth int64) ([][]b
 			return nil, 0, err
 		}
 		cursor += 4
-		return [][]byte{nullbytes}, cursor, nil
+		return [][]byte{[]byte("null")}, cursor, nil
 	case '{':
 	default:
 		return nil, 0, errors.ErrExpected("{ character for map value", cursor)
